@@ -11,6 +11,7 @@ import (
 	"golang.org/x/tools/go/ssa"
 
 	"verif/checker/internal/ir"
+	"verif/checker/internal/report"
 )
 
 // Rule family A: every CFG path to an accepting return of a verifier crosses
@@ -28,6 +29,12 @@ type fact struct {
 	// a shape the direct predicate does not evaluate ("" if there is none). Only
 	// consulted when the fact is not established.
 	undecided func(c *Ctx, fn *ssa.Function) string
+	// subject (optional): the struct fields whose value any test of the fact has to
+	// read. An accepting path on which none of them is read (and the struct is not
+	// handed to code that could read it) cannot have tested the fact, however the
+	// test is written: such a bypass is reported even where the function uses
+	// constructs the evaluators do not model.
+	subject []string
 }
 
 type acceptEngine struct {
@@ -657,6 +664,14 @@ func (e *acceptEngine) Require(rule string, fn *ssa.Function, facts []*fact) {
 			}
 			if at := e.unfollowedCall(fn, f, nil); at != "" {
 				e.c.R.Infof(rule+"."+f.id, name(fn), f.id, e.c.Pos(fn.Pos()), "not decided for this shape: "+f.what+" — the accepting outcome depends on a function value the path engine does not follow ("+at+")")
+				continue
+			}
+		}
+		if !ok && len(f.subject) > 0 {
+			if hard, hw := e.hardBypass(fn, f, 0); hard {
+				e.c.R.Add(report.Obligation{Rule: rule + "." + f.id, Key: rule + "." + f.id + "@" + name(fn) + ":" + f.id, Func: name(fn), Pos: e.c.Pos(fn.Pos()),
+					What: "every path to an accepting return establishes: " + f.what, Status: report.Violation, Hard: true,
+					Detail: fmt.Sprintf("accepting return at %s is reachable without it; bypass: %s; on a path to acceptance (%s) the value is never read", where, wit, hw)})
 				continue
 			}
 		}
@@ -1347,4 +1362,111 @@ func effectiveResult(fn *ssa.Function, r *ssa.Return, k int) ssa.Value {
 		}
 	}
 	return last.Val
+}
+
+// hardBypass: fn has an accepting return reachable from its entry along blocks
+// in which none of the fact's subject fields is read and the struct holding
+// them is not handed to code that could read it. Library callees that receive
+// the struct count as readers unless they have such a path themselves.
+func (e *acceptEngine) hardBypass(fn *ssa.Function, f *fact, depth int) (bool, string) {
+	if fn == nil || fn.Blocks == nil || depth > 4 {
+		return false, ""
+	}
+	subj := map[string]bool{}
+	owners := map[string]bool{}
+	for _, s := range f.subject {
+		subj[s] = true
+		owners[s[:strings.LastIndex(s, ".")]] = true
+	}
+	holdsOwner := func(t types.Type) bool {
+		if p, ok := t.Underlying().(*types.Pointer); ok {
+			t = p.Elem()
+		}
+		if sl, ok := t.Underlying().(*types.Slice); ok {
+			t = sl.Elem()
+		}
+		return owners[ir.NamedTypeID(t)]
+	}
+	barrier := map[int]bool{}
+	anonReads := false
+	for _, g := range fn.AnonFuncs {
+		instrsOf(g, func(i ssa.Instruction) {
+			if v, ok := i.(ssa.Value); ok && subj[ir.FieldID(v)] {
+				anonReads = true
+			}
+		})
+	}
+	for _, b := range fn.Blocks {
+		for _, i := range b.Instrs {
+			switch x := i.(type) {
+			case *ssa.Field:
+				if subj[ir.FieldID(x)] {
+					barrier[b.Index] = true
+				}
+			case *ssa.FieldAddr:
+				if !subj[ir.FieldID(x)] || x.Referrers() == nil {
+					continue
+				}
+				for _, r := range *x.Referrers() {
+					switch y := r.(type) {
+					case *ssa.Store:
+						if y.Addr != ssa.Value(x) {
+							barrier[b.Index] = true
+						}
+					case *ssa.UnOp:
+						barrier[y.Block().Index] = true
+					case *ssa.MakeInterface:
+						// handed to a decoder as its destination: a write
+					default:
+						barrier[b.Index] = true
+					}
+				}
+			case ssa.CallInstruction:
+				cc := x.Common()
+				if _, isB := cc.Value.(*ssa.Builtin); isB {
+					continue
+				}
+				callee := ir.Callee(x)
+				passes := false
+				for _, a := range ir.CallArgs(x) {
+					if holdsOwner(ir.StripIface(a).Type()) {
+						passes = true
+					}
+				}
+				switch {
+				case callee == nil:
+					// a function value: a local literal may read the struct through its free variables
+					if anonReads || passes {
+						barrier[b.Index] = true
+					}
+				case callee.Parent() == fn || callee.Parent() != nil && callee.Parent().Parent() == fn:
+					if anonReads {
+						barrier[b.Index] = true
+					}
+				case passes && e.c.P.InLib(callee):
+					if hb, _ := e.hardBypass(callee, f, depth+1); !hb {
+						barrier[b.Index] = true
+					}
+				case passes:
+					barrier[b.Index] = true
+				}
+			}
+		}
+	}
+	if barrier[0] {
+		return false, ""
+	}
+	cut := map[ir.Edge]bool{}
+	for bi := range barrier {
+		for _, s := range fn.Blocks[bi].Succs {
+			cut[ir.Edge{From: bi, To: s.Index}] = true
+		}
+	}
+	seen, prev := ir.ReachF(fn, fn.Blocks[0], cut)
+	for _, r := range acceptingReturns(fn) {
+		if seen[r.Block().Index] && !barrier[r.Block().Index] {
+			return true, ir.PathTo(fn, prev, 0, r.Block().Index, e.c.Pos)
+		}
+	}
+	return false, ""
 }
